@@ -662,6 +662,108 @@ def describe(par, ts, q):
 
 
 # --------------------------------------------------------------------------- per-DAG task (worker process)
+
+# --------------------------------------------------------------------------- views: shallow / graft x stale commit-graph
+def read_views(path: str, n: int):
+    """State dump of GraphViews -> [(par, c, kind, P, anc masks of the view, stale cover masks)]"""
+    if not path.endswith(".dump"):
+        path += ".dump"
+    with open(path, encoding="ascii", errors="replace") as f:
+        text = f.read()
+    out, roots = [], 0
+    for blk in _RE_BLOCK.split(text):
+        if not blk.strip():
+            continue
+        m = _RE_LVL.search(blk)
+        if m is None or not _RE_PAR.search(blk) or not _RE_ANS.search(blk):
+            raise ValueError(f"malformed state in {path} (truncated dump?): {blk[:200]!r}")
+        if int(m.group(1)) == 0:
+            roots += 1
+            continue
+        par = tuple(tuple(int(x) for x in _RE_INT.findall(s)) for s in _RE_SET.findall(_RE_PAR.search(blk).group(1)))
+        ans = [int(x) for x in _RE_INT.findall(_RE_ANS.search(blk).group(1))]
+        if len(par) != n or len(ans) < 3 + n + 1:
+            raise ValueError(f"malformed view state in {path}: {blk[:200]!r}")
+        out.append((par, ans[0], ans[1], tuple(set_of(ans[2])), ans[3:3 + n], ans[3 + n:]))
+    return out, roots
+
+
+def run_views(task):
+    """task = dict(n, items [(par, c, kind, P, anc, covers)], clocks {par: [ts]}, seed).  For every
+    TLC-enumerated (history, cut): build the commit objects, then -- in this order, as a repository
+    lives it -- attach a commit-graph generated from the objects over a TLC-enumerated extent that
+    contains the cut commit (complete, and one stale/partial), tell the repository about the shallow
+    boundary / graft point through its own interface, and put the questions to the real functions.
+    Expected answers: the ancestor table TLC computed for View(par, c, P)."""
+    n, seed = task["n"], task["seed"]
+    res = {"cases": 0, "queries": 0, "suspect_q": 0, "records": [], "by_kind": {}}
+    M = (1 << n) - 1
+    multi = [m for m in range(1, M + 1) if popcount(m) >= 2]
+    allsets = list(range(1, M + 1))
+    for par, c, kind, P, anc, covers in task["items"]:
+        rng = random.Random(crc(seed, par, c, kind, P))
+        tss = [tuple(range(1, n + 1))]
+        more = task["clocks"].get(par) or []
+        if more:
+            tss.append(tuple(rng.choice(more)))
+        cuts = {c: ("shallow",) if kind == 0 else ("graft", list(P))}
+        for ts in tss:
+            h = Hist(par, ts, None, repo=shared_store_repo(), salt=0, cuts=cuts)
+            view = tuple(tuple(P) if x == c else tuple(par[x - 1]) for x in range(1, n + 1))
+            if tuple(tuple(sorted(p)) for p in h.par) != tuple(tuple(sorted(p)) for p in view):
+                raise RuntimeError("harness view differs from GraphViews.View")
+            ex = Expect(n, h.par, ts, None, anc=list(anc))
+            chosen = [covers[-1]] + ([rng.choice(covers[:-1])] if len(covers) > 1 else []) + ([0] if ts is tss[0] else [])
+            for cm in chosen:
+                cover = set_of(cm)
+                if cm:
+                    attach_commit_graph(h, cover)
+                try:
+                    qc = []
+                    for a in range(1, n + 1):
+                        for b in range(1, n + 1):
+                            qc.append(q_ff(h, a, b))
+                            if a < b:
+                                qc.append(q_mb(h, a, [b]))
+                    for sm in rng.sample(multi, min(2, len(multi))):
+                        s_ = set_of(sm)
+                        qc.append(q_ind(h, s_))
+                        qc.append(q_oct(h, s_[::-1]))
+                        qc.append(q_mb(h, s_[0], s_[1:]))
+                    desc = [x for x in range(1, n + 1) if anc[x - 1] >> (c - 1) & 1]
+                    qc.append(q_walk(h, [rng.choice(desc)], []))
+                    qc.append(q_walk(h, set_of(rng.choice(allsets)), [], topo=1))
+                    qc.append(q_walk(h, set_of(rng.choice(allsets)), set_of(rng.choice(allsets))))
+                finally:
+                    if cm:
+                        attach_commit_graph(h, None)
+                ship = []
+                for q in qc:
+                    ok, _ = ex.check(q)
+                    bk = res["by_kind"].setdefault(q["k"] + ("+cg" if cm else "") + "+cut", [0, 0])
+                    bk[0] += 1
+                    q["pre"] = 1 if ok else 0
+                    if cm:
+                        q["cg"] = "dulwich-memory"
+                    if not ok:
+                        bk[1] += 1
+                        ship.append(q)
+                    elif rng.random() < task.get("p_model", 0.01):
+                        ship.append(q)
+                res["queries"] += len(qc)
+                res["suspect_q"] += sum(1 for q in ship if q["pre"] == 0)
+                if ship:
+                    rec = h.record(0, ship)
+                    rec["mode"] = None
+                    rec["salt"] = 0
+                    rec["cg"] = sorted(cover)
+                    if cm:
+                        rec["cgw"] = "dulwich-memory"
+                    res["records"].append(rec)
+        res["cases"] += 1
+    return res
+
+
 def popcount(m):
     return bin(m).count("1")
 
